@@ -884,93 +884,159 @@ func c14(r *core.Run) {
 
 	// N3
 	relS := "store"
-	re := methodNamed(p, relS, "queryHandler", "resourceEvent")
-	qe := methodNamed(p, relS, "queryHandler", "queryEvent")
+	// role resolution: the method invoking ResetEvent on a resource, and the method starting a QueryEvent
+	var re, qe *ssa.Function
+	for _, m := range methodsOf(p, relS, "queryHandler") {
+		for _, c := range core.Calls(m) {
+			if c.Common().IsInvoke() {
+				switch c.Common().Method.Name() {
+				case "ResetEvent":
+					re = m
+				case "QueryEvent":
+					qe = m
+				}
+			}
+		}
+	}
 	if re == nil || qe == nil {
 		r.Unres("N3", "queryHandler.resourceEvent/queryEvent", "missing")
 		return
 	}
+	storeFns := p.FuncsOfPkg(relS)
+	// closure of a function: itself, its closures and the same-package functions it (transitively) calls
+	reach := func(root *ssa.Function) []*ssa.Function {
+		seen := map[*ssa.Function]bool{}
+		var out []*ssa.Function
+		var walk func(f *ssa.Function, d int)
+		walk = func(f *ssa.Function, d int) {
+			if seen[f] || d > 4 || len(f.Blocks) == 0 {
+				return
+			}
+			seen[f] = true
+			out = append(out, f)
+			for _, a := range f.AnonFuncs {
+				walk(a, d+1)
+			}
+			for _, c := range core.Calls(f) {
+				if cal := c.Common().StaticCallee(); cal != nil && cal.Pkg == root.Pkg {
+					walk(cal, d+1)
+				}
+			}
+		}
+		walk(root, 0)
+		return out
+	}
+	isNameCmp := func(in ssa.Instruction) bool {
+		bo, ok := in.(*ssa.BinOp)
+		if !ok || bo.Op != token.EQL {
+			return false
+		}
+		f, ok := core.LoadedField(bo.X)
+		if !ok || f.Name != "Name" {
+			return false
+		}
+		_, ok = core.ConstString(bo.Y)
+		return ok
+	}
+	mayDispatch := mayExec(storeFns, isNameCmp)
 	names := func(fns []*ssa.Function) string {
 		set := map[string]bool{}
 		for _, fn := range fns {
 			for _, b := range fn.Blocks {
 				for _, in := range b.Instrs {
-					if bo, ok := in.(*ssa.BinOp); ok && bo.Op == token.EQL {
-						if f, ok := core.LoadedField(bo.X); ok && f.Name == "Name" {
-							if s, ok := core.ConstString(bo.Y); ok {
-								set[s] = true
-							}
-						}
+					if isNameCmp(in) {
+						s, _ := core.ConstString(in.(*ssa.BinOp).Y)
+						set[s] = true
 					}
 				}
 			}
 		}
 		return strings.Join(core.SortedKeys(set), ",")
 	}
-	n1, n2 := names([]*ssa.Function{re}), names(withAnon(qe))
+	n1, n2 := names(reach(re)), names(reach(qe))
 	r.Check(n1 == n2 && n1 != "", "N3", "store.queryHandler", "event-names-agree(resourceEvent,queryEvent)", "-", "both dispatch {"+n1+"}", "resourceEvent dispatches {"+n1+"} but queryEvent dispatches {"+n2+"}")
 	// reset edge
-	chkReset := func(fn *ssa.Function, wantCall []string, what string) {
+	chkReset := func(rootFn *ssa.Function, wantCall []string, what string) {
 		found := false
-		for _, b := range fn.Blocks {
-			iff, ok := b.Instrs[len(b.Instrs)-1].(*ssa.If)
-			if !ok {
-				continue
-			}
-			ex, ok := iff.Cond.(*ssa.Extract)
-			if !ok || ex.Index != 1 {
-				continue
-			}
-			c, ok := ex.Tuple.(*ssa.Call)
-			if !ok || !c.Common().IsInvoke() || c.Common().Method.Name() != "Events" {
-				continue
-			}
-			found = true
-			tb := b.Succs[0]
-			// the reset edge reaches one of wantCall invokes and no per-event dispatch (Name comparison)
-			reach := false
-			dispatch := false
-			seen := map[*ssa.BasicBlock]bool{}
-			st := []*ssa.BasicBlock{tb}
-			for len(st) > 0 {
-				x := st[len(st)-1]
-				st = st[:len(st)-1]
-				if seen[x] {
+		for _, fn := range reach(rootFn) {
+			mayWant := mayExec(storeFns, func(in ssa.Instruction) bool {
+				cc, ok := in.(ssa.CallInstruction)
+				if !ok {
+					return false
+				}
+				nm := ""
+				if cc.Common().IsInvoke() {
+					nm = cc.Common().Method.Name()
+				} else if cal := cc.Common().StaticCallee(); cal != nil {
+					nm = cal.Name()
+				}
+				for _, w := range wantCall {
+					if nm == w {
+						return true
+					}
+				}
+				return false
+			})
+			for _, b := range fn.Blocks {
+				iff, ok := b.Instrs[len(b.Instrs)-1].(*ssa.If)
+				if !ok {
 					continue
 				}
-				seen[x] = true
-				for _, in := range x.Instrs {
-					if cc, ok := in.(ssa.CallInstruction); ok {
-						nm := ""
-						if cc.Common().IsInvoke() {
-							nm = cc.Common().Method.Name()
-						} else if cal := cc.Common().StaticCallee(); cal != nil {
-							nm = cal.Name()
-						}
-						for _, w := range wantCall {
-							if nm == w {
-								reach = true
+				ex, ok := iff.Cond.(*ssa.Extract)
+				if !ok || ex.Index != 1 {
+					continue
+				}
+				c, ok := ex.Tuple.(*ssa.Call)
+				if !ok || !c.Common().IsInvoke() || c.Common().Method.Name() != "Events" {
+					continue
+				}
+				found = true
+				tb := b.Succs[0]
+				reachW, dispatch := false, false
+				seen := map[*ssa.BasicBlock]bool{}
+				st := []*ssa.BasicBlock{tb}
+				for len(st) > 0 {
+					x := st[len(st)-1]
+					st = st[:len(st)-1]
+					if seen[x] {
+						continue
+					}
+					seen[x] = true
+					for _, in := range x.Instrs {
+						if cc, ok := in.(ssa.CallInstruction); ok {
+							nm := ""
+							if cc.Common().IsInvoke() {
+								nm = cc.Common().Method.Name()
+							} else if cal := cc.Common().StaticCallee(); cal != nil {
+								nm = cal.Name()
+								if mayWant[cal] {
+									reachW = true
+								}
+								if mayDispatch[cal] {
+									dispatch = true
+								}
+							}
+							for _, w := range wantCall {
+								if nm == w {
+									reachW = true
+								}
 							}
 						}
-					}
-					if bo, ok := in.(*ssa.BinOp); ok && bo.Op == token.EQL {
-						if f, ok := core.LoadedField(bo.X); ok && f.Name == "Name" {
+						if isNameCmp(in) {
 							dispatch = true
 						}
 					}
+					st = append(st, x.Succs...)
 				}
-				st = append(st, x.Succs...)
+				r.Check(reachW && !dispatch, "N3", core.FuncName(rootFn), "reset-edge->"+what, p.InstrPos(iff), "a reset flag is honoured and no partial events are emitted", fmt.Sprintf("reset flag mishandled: reaches-%s=%v dispatches-events=%v", what, reachW, dispatch))
 			}
-			r.Check(reach && !dispatch, "N3", core.FuncName(fn), "reset-edge->"+what, p.InstrPos(iff), "a reset flag is honoured and no partial events are emitted", fmt.Sprintf("reset flag mishandled: reaches-%s=%v dispatches-events=%v", what, reach, dispatch))
 		}
 		if !found {
-			r.Bad("N3", core.FuncName(fn), "tests-reset-flag", p.Pos(fn.Pos()), "the reset result of QueryChange.Events is ignored")
+			r.Bad("N3", core.FuncName(rootFn), "tests-reset-flag", p.Pos(rootFn.Pos()), "the reset result of QueryChange.Events is ignored")
 		}
 	}
 	chkReset(re, []string{"ResetEvent"}, "reset-event")
-	for _, f2 := range qe.AnonFuncs {
-		chkReset(f2, []string{"getResult"}, "fresh-result")
-	}
+	chkReset(qe, []string{"getResult", "Query"}, "fresh-result")
 }
 
 // rangeLoopHead returns the blocks that are loop heads (targets of back edges).
